@@ -2847,7 +2847,7 @@ fn shrink<T: Subject>(hdr: &Hdr, ops: Vec<Op>, target: &Dis, lean: &mut Option<L
 
 /// a monitor class after which the process's heap can no longer be trusted
 fn heap_corrupting(d: &Dis) -> bool {
-    d.kind == "monitor" && d.sub != "utf8" && !d.sub.ends_with(alloc::violation_name(alloc::V_LEAK))
+    d.kind == "monitor" && d.sub != "utf8" && d.sub != "repr" && !d.sub.ends_with(alloc::violation_name(alloc::V_LEAK))
 }
 
 fn dis_json(hdr: &Hdr, ops: &[Op], dis: &Dis, shrunk: bool) -> serde_json::Value {
